@@ -195,6 +195,8 @@ func main() {
 	return d.String()
 }
 
+var run18deep int
+
 func genCase(rt *rapid.T, nWork int) *Case {
 	c := &Case{}
 	nP := ri(rt, 2, 4, "npkg")
@@ -211,6 +213,19 @@ func genCase(rt *rapid.T, nWork int) *Case {
 		}
 		c.Pkgs = append(c.Pkgs, &Pkg{G: g, OnBounds: i%3 != 2, HasErr: cfggen.HasErr(g)})
 	}
+	// one fixed nesting grammar with an @error production: deep parse stacks, errors and
+	// recoveries (dropping tokens) far from the bottom of the stack
+	nest := &cfgm.G{Toks: []string{"TA", "TB", "TC", "TD"}, Rules: []cfgm.Rule{
+		{Name: "ra", Prods: []cfgm.Prod{{Terms: []cfgm.Term{{Kind: cfgm.KStar, Name: "rb"}}}}},
+		{Name: "rb", Prods: []cfgm.Prod{
+			{Terms: []cfgm.Term{{Kind: cfgm.KSym, Name: "TA", IsTok: true}}},
+			{Terms: []cfgm.Term{{Kind: cfgm.KSym, Name: "TB", IsTok: true}, {Kind: cfgm.KSym, Name: "ra"}, {Kind: cfgm.KSym, Name: "TC", IsTok: true}}},
+			{Terms: []cfgm.Term{{Kind: cfgm.KErr}, {Kind: cfgm.KSym, Name: "TC", IsTok: true}}},
+		}},
+	}}
+	c.Pkgs = append(c.Pkgs, &Pkg{G: nest, OnBounds: true, HasErr: true})
+	nestIdx := len(c.Pkgs) - 1
+	nP = len(c.Pkgs)
 	// one or two lexer-only packages with a mode graph (push / pop, nesting)
 	var lexTexts [][][]byte
 	for i, n := 0, ri(rt, 1, 2, "nlexpkg"); i < n; i++ {
@@ -232,12 +247,35 @@ func genCase(rt *rapid.T, nWork int) *Case {
 		w := &Workload{MaxProcs: []int{2, 8, 16}[k%3], Yield: []int{0, 1, 3, 7}[ri(rt, 0, 3, "yield")]}
 		nG := ri(rt, 2, 32, "ngor")
 		same := ri(rt, 0, nAll-1, "same") // package run by at least two goroutines
+		if ri(rt, 0, 1, "deepwork") == 0 {
+			same = nestIdx // several goroutines recover deep inside the nesting grammar at the same time
+		}
 		for g := 0; g < nG; g++ {
 			var ts []Task
 			for j, nt := 0, ri(rt, 2, 10, "ntask"); j < nt; j++ {
 				pi := ri(rt, 0, nAll-1, "pi")
-				if g < 2 && j == 0 {
+				if g < 2 && j == 0 || same == nestIdx && ri(rt, 0, 2, "deepagain") == 0 {
 					pi = same
+				}
+				if pi == nestIdx {
+					// TB^k ... with stray TD tokens deep inside, then the closers (some missing)
+					k := ri(rt, 60, 95, "depth")
+					var w0 []int
+					for q := 0; q < k; q++ {
+						w0 = append(w0, 3) // TB
+					}
+					for q, nq := 0, ri(rt, 1, 4, "nerr"); q < nq; q++ {
+						w0 = append(w0, 2, 5, 5, 2) // TA TD TD TA: an error with tokens to drop
+					}
+					for q := 0; q < k-ri(rt, 0, 2, "missing"); q++ {
+						w0 = append(w0, 4) // TC
+						if q%17 == 3 {
+							w0 = append(w0, 5)
+						}
+					}
+					ts = append(ts, Task{Pkg: pi, Kind: "parse", Toks: w0, Limit: 2000 + 200*len(w0)})
+					run18deep++
+					continue
 				}
 				if c.Pkgs[pi].S != nil {
 					tx := lexTexts[pi-nP]
@@ -374,7 +412,7 @@ func head(s string, n int) string {
 func TestC18(t *testing.T) {
 	run := ev.Start("C18")
 	defer run.Finish(t)
-	run.Rule = "sets of 2-4 generated parser packages plus 1-2 lexer-only packages with up to 3 nested modes (push/pop) (different grammars; every second one with @error recovery, two of three with _onBounds; each with its generated lexer state machine) linked into ONE program built with -race; workloads of 2-32 goroutines released by a barrier, each running 2-10 tasks (parse of a sentence or mutant through the generated parser, or lexing a text through the real simplelexer + generated state machine), at least two goroutines starting on the same package, GOMAXPROCS in {2,8,16}, runtime.Gosched injected at every 1st/3rd/7th ReadToken; " +
+	run.Rule = "sets of 2-4 generated parser packages, one nesting grammar with an @error production driven with inputs nested 60-95 deep that contain errors whose recovery drops tokens, plus 1-2 lexer-only packages with up to 3 nested modes (push/pop) (different grammars; every second one with @error recovery, two of three with _onBounds; each with its generated lexer state machine) linked into ONE program built with -race; workloads of 2-32 goroutines released by a barrier, each running 2-10 tasks (parse of a sentence or mutant through the generated parser, or lexing a text through the real simplelexer + generated state machine), at least two goroutines starting on the same package, GOMAXPROCS in {2,8,16}, runtime.Gosched injected at every 1st/3rd/7th ReadToken; " +
 		"oracle: no report from the race detector (GORACE=halt_on_error) and every task's result (ok, errors, first blamed token, result tree, event log / token stream) equals the sequential run of the same workload in the same process; " +
 		"non-trivial = workload where >=2 goroutines use the same package, >=2 packages are used and a recovery-capable parser runs; distinct by workload"
 	run.Assumptions = []string{"the schedule is not owned by the harness: assurance rests on the race detector's happens-before analysis plus result comparison on the schedules that happened"}
